@@ -179,6 +179,34 @@ def item_text(repo, fname, item):
     above it (doc comments are comments: removed) and everything up to its closing brace"""
     import re
     src = open(os.path.join(repo, fname), encoding="utf-8", errors="replace").read()
+    if item.startswith("impl "):
+        # `impl <Trait> for <Type>`: the NAMES of the methods the impl block defines (a trait's provided methods the
+        # block does not list keep their default body: a contract on the default then speaks for this type too)
+        _, tr, _, ty = (item.split() + ["", "", ""])[:4]
+        m = re.search(r"^impl\b[^{;]*\b%s\b[^{;]*\bfor\s+%s\b[^{;]*\{" % (re.escape(tr), re.escape(ty)), src, re.M)
+        if not m:
+            return None
+        i = m.end() - 1
+        d, j = 0, i
+        while True:
+            if src[j] == "{":
+                d += 1
+            elif src[j] == "}":
+                d -= 1
+                if d == 0:
+                    break
+            j += 1
+        body = strip(src[i:j + 1])
+        # method names at nesting depth 1 of the block
+        names, d, k = [], 0, 0
+        for mm in re.finditer(r"[{}]|\bfn ([A-Za-z_0-9]+)", body):
+            if mm.group(0) == "{":
+                d += 1
+            elif mm.group(0) == "}":
+                d -= 1
+            elif d == 1:
+                names.append(mm.group(1))
+        return "impl %s for %s{%s}" % (tr, ty, ";".join(names))
     m = re.search(r"^[ \t]*(pub(\([a-z]+\))? )?(struct|enum) %s\b" % re.escape(item), src, re.M)
     if not m:
         return None
